@@ -56,7 +56,7 @@ def run(ctx):
                'stored predictions (model_fluxes) are themselves checked against truth by C04')
     ctx.require_events('plot:call', 'curve-point:checked', 'curve-point:truth-checked')
     ctx.require_regimes('mode:interp', 'mode:largest', 'mode:largest+smallest', 'mode:all', 'input:object', 'input:file', 'multi-aperture', 'single-aperture',
-                        'cube:asc', 'cube:desc', 'selected>=2', 'beyond-table', 'filters:unsorted')
+                        'cube:asc', 'cube:desc', 'selected>=2', 'beyond-table', 'filters:unsorted', 'two-sources-share-a-model')
     n_pk = 5 if ctx.quick else 100
     for ip in range(n_pk):
         n_m = int(rng.integers(3, 8))
@@ -133,8 +133,15 @@ def run(ctx):
         err = flux * 0.1
         src = gen.build_source('star', valid, flux, err, 3.0, 4.0)
         info_obj = fitter.fit(src)
+        # a second source whose best fits share models with the first: one plot() call then draws the same model twice
+        flux2 = 10.0 ** (pred + 0.15 + rng.normal(0, 0.03, nb))
+        err2 = flux2 * 0.1
+        info_obj2 = fitter.fit(gen.build_source('star2', valid, flux2, err2, 5.0, 6.0))
         data = os.path.join(d, 'data.txt')
-        open(data, 'w').write(gen.source_line('star', valid, flux, err, 3.0, 4.0) + '\n')
+        open(data, 'w').write(gen.source_line('star', valid, flux, err, 3.0, 4.0) + '\n' +
+                              gen.source_line('star2', valid, flux2, err2, 5.0, 6.0) + '\n')
+        if set(str(x) for x in info_obj.model_name[:2]) & set(str(x) for x in info_obj2.model_name[:2]):
+            ctx.regime('two-sources-share-a-model')
         out = os.path.join(d, 'fit.out')
         try:
             fit(data, filt, theta * u.arcsec, md, out, n_data_min=1, extinction_law=law, av_range=(0.5, 12.0),
@@ -151,7 +158,7 @@ def run(ctx):
                 ctx.regime('input:' + form)
                 if nsel >= 2:
                     ctx.regime('selected>=2')
-                inp = info_obj if form == 'object' else out
+                inp = [info_obj, info_obj2] if form == 'object' else out
                 wit = dict(mode=mode, input=form, selected=nsel, multi=multi, cube_desc=desc, theta=theta, band_wav=wav, n_ap=n_ap,
                            apertures=truth.apertures, distance_range=dr)
                 try:
@@ -162,65 +169,66 @@ def run(ctx):
                     continue
                 ctx.event('plot:call')
                 ctx.case(('plot', ip, mode, form, nsel, ctx.shard), nontrivial=nsel >= 2 or multi, sample=wit if ip == 0 and mode == 'all' else None)
-                if 'star' not in figs or 'lines' not in figs['star']:
-                    ctx.violation('plot:no-lines', 'no line collection returned for the source', wit)
-                    continue
-                segs = [np.array(s_, float) for s_ in figs['star']['lines'].get_segments()]
-                # the reference record: what the object interface returned (file records are bit-identical: C10)
-                rec = info_obj
-                ncur = curves_in_mode(mode, theta)
-                if len(segs) != nsel * ncur:
-                    ctx.violation('plot:curve-count:' + mode, 'number of curves is not selected fits x apertures shown by the display mode',
-                                  dict(wit, curves=len(segs), expected=nsel * ncur))
-                    continue
-                for i in range(nsel):
-                    block = segs[(nsel - 1 - i) * ncur:(nsel - i) * ncur]      # best fit drawn last
-                    av_i, sc_i = float(rec.av[i]), float(rec.sc[i])
-                    mi = truth.index(str(rec.model_name[i]))
-                    for j in range(nb):
-                        ci = curve_index(mode, theta, j)
-                        if ci is None:
-                            continue
-                        seg = block[ci]
-                        node = np.where(np.abs(seg[:, 0] / wav[j] - 1) < 1e-9)[0]
-                        if node.size != 1:
-                            ctx.violation('plot:node-missing', 'a curve has no node at a fitted wavelength', dict(wit, band=j))
-                            continue
-                        got = float(seg[node[0], 1])
-                        nu = C_CM / (wav[j] * 1e-4)
-                        stored = 10.0 ** float(rec.model_fluxes[i, j]) * 1e-26 * nu
-                        # band beyond the table in the default display mode: clamped to 0.999 a_max by design
-                        lo = hi = stored
-                        beyond = False
-                        if multi:
-                            a_req = theta[j] * 10.0 ** sc_i * 1000.0
-                            if a_req > truth.apertures[-1] and mode == 'interp':
-                                beyond = True
-                                ctx.regime('beyond-table')
-                                v999 = float(O.interp_aperture(truth.apertures, truth.flux[mi, :, bi[j]], 0.999 * truth.apertures[-1]))
-                                vmax = float(truth.flux[mi, -1, bi[j]])
-                                ratio = v999 / vmax
-                                lo, hi = min(stored * ratio, stored), max(stored * ratio, stored)
-                        ctx.event('curve-point:checked')
-                        if not (lo * (1 - 5e-4) <= got <= hi * (1 + 5e-4)):
-                            ctx.violation('plot:curve-misses-stored-prediction:' + mode,
-                                          'the curve drawn for a filter\'s aperture does not pass through the predicted flux stored with the fit',
-                                          dict(wit, fit=i, band=j, got=got, stored=stored, ratio=got / stored, av=av_i, sc=sc_i, beyond_table=beyond,
-                                               model=str(rec.model_name[i])))
-                            continue
-                        # independent second opinion from truth
-                        if multi:
-                            a_req = theta[j] * 10.0 ** sc_i * 1000.0
-                            base = float(O.interp_aperture(truth.apertures, truth.flux[mi, :, bi[j]], min(a_req, truth.apertures[-1])))
-                            tv = base / (10.0 ** sc_i) ** 2
-                        else:
-                            tv = float(truth.flux[mi, 0, bi[j]]) * 10.0 ** (-2 * sc_i)
-                        tv = tv * 10.0 ** (av_i * k[j]) * 1e-26 * nu
-                        tlo, thi = (tv, tv) if not beyond else (min(tv * ratio, tv), max(tv * ratio, tv))
-                        ctx.event('curve-point:truth-checked')
-                        if not (tlo * (1 - 5e-4) <= got <= thi * (1 + 5e-4)):
-                            ctx.violation('plot:curve-misses-truth:' + mode, 'the curve is not the named model scaled to 10^scale kpc and reddened by the reported A_V',
-                                          dict(wit, fit=i, band=j, got=got, truth=tv, ratio=got / tv))
+                for sname, rec in (('star', info_obj), ('star2', info_obj2)):
+                  wit = dict(wit, source=sname)
+                  if sname not in figs or 'lines' not in figs[sname]:
+                      ctx.violation('plot:no-lines', 'no line collection returned for the source', wit)
+                      continue
+                  segs = [np.array(s_, float) for s_ in figs[sname]['lines'].get_segments()]
+                  # the reference record: what the object interface returned (file records are bit-identical: C10)
+                  ncur = curves_in_mode(mode, theta)
+                  if len(segs) != nsel * ncur:
+                      ctx.violation('plot:curve-count:' + mode, 'number of curves is not selected fits x apertures shown by the display mode',
+                                    dict(wit, curves=len(segs), expected=nsel * ncur))
+                      continue
+                  for i in range(nsel):
+                      block = segs[(nsel - 1 - i) * ncur:(nsel - i) * ncur]      # best fit drawn last
+                      av_i, sc_i = float(rec.av[i]), float(rec.sc[i])
+                      mi = truth.index(str(rec.model_name[i]))
+                      for j in range(nb):
+                          ci = curve_index(mode, theta, j)
+                          if ci is None:
+                              continue
+                          seg = block[ci]
+                          node = np.where(np.abs(seg[:, 0] / wav[j] - 1) < 1e-9)[0]
+                          if node.size != 1:
+                              ctx.violation('plot:node-missing', 'a curve has no node at a fitted wavelength', dict(wit, band=j))
+                              continue
+                          got = float(seg[node[0], 1])
+                          nu = C_CM / (wav[j] * 1e-4)
+                          stored = 10.0 ** float(rec.model_fluxes[i, j]) * 1e-26 * nu
+                          # band beyond the table in the default display mode: clamped to 0.999 a_max by design
+                          lo = hi = stored
+                          beyond = False
+                          if multi:
+                              a_req = theta[j] * 10.0 ** sc_i * 1000.0
+                              if a_req > truth.apertures[-1] and mode == 'interp':
+                                  beyond = True
+                                  ctx.regime('beyond-table')
+                                  v999 = float(O.interp_aperture(truth.apertures, truth.flux[mi, :, bi[j]], 0.999 * truth.apertures[-1]))
+                                  vmax = float(truth.flux[mi, -1, bi[j]])
+                                  ratio = v999 / vmax
+                                  lo, hi = min(stored * ratio, stored), max(stored * ratio, stored)
+                          ctx.event('curve-point:checked')
+                          if not (lo * (1 - 5e-4) <= got <= hi * (1 + 5e-4)):
+                              ctx.violation('plot:curve-misses-stored-prediction:' + mode,
+                                            'the curve drawn for a filter\'s aperture does not pass through the predicted flux stored with the fit',
+                                            dict(wit, fit=i, band=j, got=got, stored=stored, ratio=got / stored, av=av_i, sc=sc_i, beyond_table=beyond,
+                                                 model=str(rec.model_name[i])))
+                              continue
+                          # independent second opinion from truth
+                          if multi:
+                              a_req = theta[j] * 10.0 ** sc_i * 1000.0
+                              base = float(O.interp_aperture(truth.apertures, truth.flux[mi, :, bi[j]], min(a_req, truth.apertures[-1])))
+                              tv = base / (10.0 ** sc_i) ** 2
+                          else:
+                              tv = float(truth.flux[mi, 0, bi[j]]) * 10.0 ** (-2 * sc_i)
+                          tv = tv * 10.0 ** (av_i * k[j]) * 1e-26 * nu
+                          tlo, thi = (tv, tv) if not beyond else (min(tv * ratio, tv), max(tv * ratio, tv))
+                          ctx.event('curve-point:truth-checked')
+                          if not (tlo * (1 - 5e-4) <= got <= thi * (1 + 5e-4)):
+                              ctx.violation('plot:curve-misses-truth:' + mode, 'the curve is not the named model scaled to 10^scale kpc and reddened by the reported A_V',
+                                            dict(wit, fit=i, band=j, got=got, truth=tv, ratio=got / tv))
         ctx.rmdir(d)
 
 
